@@ -183,8 +183,16 @@ fn main() {
         }
         "merge" => {
             let mut sets: [Vec<u64>; 3] = [vec![], vec![], vec![]];
-            for f in &args[2..] {
-                let b = std::fs::read(f).unwrap();
+            let mut files: Vec<String> = vec![];
+            for a in &args[2..] {
+                if let Some(list) = a.strip_prefix('@') {
+                    files.extend(std::fs::read_to_string(list).unwrap().lines().filter(|l| !l.is_empty()).map(|l| l.to_string()));
+                } else {
+                    files.push(a.clone());
+                }
+            }
+            for f in &files {
+                let Ok(b) = std::fs::read(f) else { continue };
                 for c in b.chunks_exact(9) {
                     let k = c[0] as usize;
                     let v = u64::from_le_bytes(c[1..9].try_into().unwrap());
